@@ -102,6 +102,15 @@ func Scan(n, m int) (total int, hit bool) {
 	return
 }
 
+// LoopLE: inclusive bound.
+func LoopLE(n int) int {
+	s := 0
+	for i := 2; i <= n; i++ {
+		s += i * i
+	}
+	return s
+}
+
 // Nested is outside the subset (a loop inside a loop): the translator must stop on it.
 func Nested(n, m int) (total int) {
 	for i := 0; i < n; i++ {
